@@ -21,8 +21,11 @@ def replace_block(text, name, body):
 
 
 def main():
-    out = '/tmp/seeded_results.json'
-    subprocess.run([sys.executable, os.path.join(HERE, 'tools', 'run_seeded.py'), '--json', out], check=True, stdout=subprocess.DEVNULL)
+    out = os.environ.get('SEEDED_RESULTS') or ''
+    if not (out and os.path.isfile(out)):
+        # no fresh result file handed in: run every seeded change now (takes a while)
+        out = os.path.join(HERE, 'seeded', '_last_results.json')
+        subprocess.run([sys.executable, os.path.join(HERE, 'tools', 'run_seeded.py'), '--json', out], check=True, stdout=subprocess.DEVNULL)
     res = json.load(open(out))
     rows = ['| seed | property | what the change does / what it needs to manifest | verdict | reported by (rule :: construct) |', '|---|---|---|---|---|']
     caught = 0
